@@ -260,6 +260,10 @@ where
             rep.sample(json!({"layout": lay, "environment": env, "n_constraints": nc, "deep_terms": nm, "f(c1)": hex(&f1), "g(d1)": hex(&g1)}));
         }
     }
+    // ---- dynamic layout: every DEEP term reads the column AND the row offset of the same trace cell
+    if h.proof.public_input.dynamic_params.is_some() {
+        dynamic_pairing::<L>(h, rng, rep, &doms);
+    }
     // every coefficient position contributes a term that is not identically zero
     for i in 0..nc {
         let ok = if pi_enabled.is_some() { nonzero_seen_enabled[i] } else { nonzero_seen[i] };
@@ -309,6 +313,120 @@ where
         }
     } else {
         rep.inconclusive(&format!("{}: stark_commit failed on the honest proof", h.name));
+    }
+}
+
+/// Dynamic layout: a trace cell `X` is placed by the two parameters `X_column` and `X_offset`. Every
+/// column parameter is given a column index of its own, so the column a DEEP term reads names the
+/// parameter it used; the offset parameters are then bumped in 8 rounds following a binary code, so
+/// the set of rounds in which a term's evaluation point moves names the offset parameter it used.
+/// A term whose column belongs to cell X and whose row offset belongs to cell Y != X pairs an opening
+/// with the wrong trace cell (the opening it should bind is then bound by no DEEP term).
+fn dynamic_pairing<L: LayoutTrait + GenericLayoutTrait>(h: &Honest, rng: &mut Rng, rep: &mut Report, doms: &StarkDomains) {
+    let pi0 = &h.proof.public_input;
+    let lay = h.layout.as_str();
+    let nm = L::MASK_SIZE + L::CONSTRAINT_DEGREE;
+    let d0 = serde_json::to_value(pi0.dynamic_params.as_ref().unwrap()).unwrap();
+    let keys: Vec<String> = d0.as_object().unwrap().keys().cloned().collect();
+    let col_keys: Vec<String> = keys.iter().filter(|k| k.ends_with("_column")).cloned().collect();
+    let cells: Vec<String> = col_keys.iter().map(|k| k.trim_end_matches("_column").to_string()).filter(|x| keys.contains(&format!("{x}_offset"))).collect();
+    let ncol = L::get_num_columns_first(pi0).unwrap() + L::get_num_columns_second(pi0).unwrap() + L::CONSTRAINT_DEGREE;
+    let with = |f: &dyn Fn(&mut serde_json::Value)| -> PublicInput {
+        let mut d = d0.clone();
+        for (j, k) in col_keys.iter().enumerate() {
+            d[k] = ((ncol + j) as u64).into();
+        }
+        f(&mut d);
+        let mut p: PublicInput = serde_json::from_value(serde_json::to_value(pi0).unwrap()).unwrap();
+        p.dynamic_params = Some(serde_json::from_value(d).unwrap());
+        p
+    };
+    let nbits = 8usize;
+    if cells.len() >= (1 << nbits) - 1 {
+        rep.inconclusive("dynamic pairing monitor: more cells than codes");
+        return;
+    }
+    let code = |cell_idx: usize| cell_idx + 1; // never 0
+    let pis: Vec<PublicInput> = std::iter::once(with(&|_| {}))
+        .chain((0..nbits).map(|r| {
+            with(&|d: &mut serde_json::Value| {
+                for (ci, c) in cells.iter().enumerate() {
+                    if (code(ci) >> r) & 1 == 1 {
+                        let k = format!("{c}_offset");
+                        let v = d[&k].as_u64().unwrap_or(0);
+                        d[&k] = (v + 1).into();
+                    }
+                }
+            })
+        }))
+        .collect();
+    let n_long = ncol + col_keys.len();
+    let cv: Vec<Felt> = (0..n_long).map(|_| rng.felt()).collect();
+    let cv_ones: Vec<Felt> = cv.iter().map(|v| *v + Felt::ONE).collect();
+    let cv_shift: Vec<Felt> = cv.iter().enumerate().map(|(c, v)| *v + Felt::from(c as u64 + 1)).collect();
+    let ov: Vec<Felt> = (0..nm).map(|_| rng.felt()).collect();
+    let x = rng.felt();
+    let z = rng.felt();
+    let g = |pi: &PublicInput, cvv: &[Felt], c: &[Felt]| -> Result<Felt, String> {
+        catch(|| L::eval_oods_polynomial(pi, cvv, &ov, c, &x, &z, &doms.trace_generator).map_err(|e| format!("{e:?}")))
+            .map_err(|p| format!("panic {}:{} {}", p.file, p.line, p.msg))
+            .and_then(|r| r)
+    };
+    // per term: (column index read, inverse denominator) under each parameter set
+    let res: Vec<Result<(usize, Vec<Felt>), String>> = par_map(nm, |i| {
+        let e = unit(nm, i);
+        let base = g(&pis[0], &cv, &e)?;
+        let d_ones = g(&pis[0], &cv_ones, &e)? - base;
+        let d_shift = g(&pis[0], &cv_shift, &e)? - base;
+        if d_ones == Felt::ZERO {
+            return Err("term reads no column".into());
+        }
+        let ratio = d_shift * inv(d_ones);
+        let col = (0..n_long).find(|c| Felt::from(*c as u64 + 1) == ratio).ok_or("term reads more than one column")?;
+        let mut dens = vec![d_ones];
+        for pr in &pis[1..] {
+            let b = g(pr, &cv, &e)?;
+            dens.push(g(pr, &cv_ones, &e)? - b);
+        }
+        Ok((col, dens))
+    });
+    let mut checked = 0u64;
+    let mut fixed_cols = 0u64;
+    for (i, r) in res.iter().enumerate() {
+        rep.case(&format!("{lay}|deep-pairing|{i}"), true);
+        match r {
+            Err(e) => rep.inconclusive(&format!("dynamic pairing monitor: term {i}: {e}")),
+            Ok((col, dens)) => {
+                if *col < ncol {
+                    // a column that no parameter names: only the composition columns may be read so
+                    fixed_cols += 1;
+                    continue;
+                }
+                let ckey = &col_keys[*col - ncol];
+                let cell = ckey.trim_end_matches("_column");
+                let mut seen_code = 0usize;
+                for r in 0..nbits {
+                    if dens[r + 1] != dens[0] {
+                        seen_code |= 1 << r;
+                    }
+                }
+                let want = cells.iter().position(|c| c == cell).map(code).unwrap_or(0);
+                checked += 1;
+                if seen_code != want {
+                    let other = if seen_code >= 1 && seen_code - 1 < cells.len() { cells[seen_code - 1].clone() } else { format!("offset code {seen_code:#b}") };
+                    rep.violation(
+                        &format!("C16|deep-term|{lay}|column and row offset of different trace cells"),
+                        &format!("DEEP coefficient position {i} reads column parameter {ckey} but its evaluation point follows the row offset of {other}: the opening is paired with the wrong trace cell"),
+                        json!({"layout": lay, "position": i, "column_parameter": ckey, "offset_follows": other}),
+                    );
+                }
+            }
+        }
+    }
+    rep.count("dynamic.deep_terms_pairing_checked", checked);
+    rep.count("dynamic.deep_terms_on_unnamed_columns", fixed_cols);
+    if fixed_cols as usize > L::CONSTRAINT_DEGREE {
+        rep.violation(&format!("C16|deep-term|{lay}|unnamed column"), &format!("{fixed_cols} DEEP terms read a column that no dynamic parameter names (only the {} composition columns may)", L::CONSTRAINT_DEGREE), json!({"layout": lay}));
     }
 }
 
